@@ -353,12 +353,6 @@ def crc_kernel():
 
 def build(tier):
     hs = [
-        Harness("image", image_harness(tier),
-                {"image_length": f"symbolic 1..{MAXLEN}", "content": "unconstrained array",
-                 "fw_type/version": "symbolic 0..65535", "block_index": "symbolic < blocks",
-                 "pad_loop": "forks on length mod 128 (128 residues)"},
-                goals=["served"], timeout_ms=60000,
-                doc="prepare_fw / respond_fw_config / respond_fw on a symbolic-length image"),
         Harness("block-sequence", block_sequence(2 if tier == "quick" else 3),
                 {"image": "300 bytes (24 blocks after padding)", "requests": 2 if tier == "quick"
                  else 3, "indices": "symbolic 0..23", "nodes": "either scheduled node"},
@@ -370,6 +364,13 @@ def build(tier):
     ]
     from . import c09_hex
     hs.extend(c09_hex.harnesses(tier))
+    hs.append(  # the array harness last: it has the hardest queries
+        Harness("image", image_harness(tier),
+                {"image_length": f"symbolic 1..{MAXLEN}", "content": "unconstrained array",
+                 "fw_type/version": "symbolic 0..65535", "block_index": "symbolic < blocks",
+                 "pad_loop": "forks on length mod 128 (128 residues)"},
+                goals=["served"], timeout_ms=60000,
+                doc="prepare_fw / respond_fw_config / respond_fw on a symbolic-length image"))
     return {
         "harnesses": hs,
         "level_text": "symbolic execution of make_update/prepare_fw/respond_fw_config/respond_fw "
@@ -381,8 +382,10 @@ def build(tier):
                         "length) in the image harness; its definition is the subject of the "
                         "crc-kernel harness", "crcmod's C kernel equals its Python twin "
                         "(checked on samples)"],
-        "outside": ["Intel-HEX parsing (third-party intelhex behind file I/O): load_fw's result "
-                    "is what prepare_fw receives, nothing more is claimed",
+        "outside": ["Intel-HEX files with more records / longer records / addresses >= 16 than the "
+                    "intel-hex harness states, overlapping records, data on both sides of a "
+                    "64 KiB base change; that the intelhex package at run time is the installed "
+                    "source that was interpreted",
                     f"images longer than {MAXLEN} bytes"],
         "stubs": ["compute_crc -> uninterpreted function (image harness)"],
     }
